@@ -464,6 +464,20 @@ def key_discipline(rep, ex: Explorer, cls=CI):
         for ev, Q in iter_events(p.events):
             pass
         if p.outcome[0] == "return":
+            # C.relations: η_i ≥ 0 for every conditional (non-negative integer impacts)
+            from ..absvals import FormulaV
+
+            vw0 = view(p.state, p.outcome[1])
+            nonneg = []
+            if isinstance(vw0, tuple) and vw0[0] == "list":
+                for sg in vw0[1]:
+                    if sg[0] == "each" and sg[2] == KEYS_D and sg[3] == PTRUE and isinstance(sg[4], FormulaV) and sg[4].f[0] == "rel":
+                        f = sg[4].f
+                        terms = dict(f[1][0])
+                        if len(terms) == 1 and all(_name_prefix(t) == "eta_" for t in terms):
+                            nonneg.append(f)
+            okn = any(f[2] == ">=" and f[1][1] == 0 and list(dict(f[1][0]).values()) == [1] for f in nonneg)
+            rep.check(okn and len(nonneg) == 1, "C.relations", site, "non-negative impacts", "η_i ≥ 0 for every conditional", extracted="; ".join(F.show(f) for f in nonneg) or "none", required="η_i ≥ 0", function=site)
             quals = _name_qualifiers(view(p.state, p.outcome[1]))
             for prefix, qs in quals.items():
                 n_fam += 1
